@@ -8,6 +8,11 @@ round trip). Recursion between `readEq` and `readExpr` is by an explicit paramet
 parser of the next lower fuel), loops have their own fuel; fuel never runs out when it is at least
 the length of the input (+1), which is how the entry points at the end call them.
 
+Deviations of the pinned tree carried here (marked `DEVIATION (C14-…)`): `!` takes the whole rest of
+the equation (not-scope), `precedentCorrect` rotates the second argument of a function call (func-arg),
+`readEqList` has no empty list (empty-list), Root/At after the first position are swallowed
+(no-text-form).
+
 Not modelled: `regexp.Compile` (every regex source is taken to compile), `[(…)]` procedures
 (`jp.CompileScript` is nil, `MustNewProc` panics).
 -/
@@ -250,6 +255,7 @@ def nextFrag (pf : P (List Item)) (first lastDescent : Bool) (bs : Bytes) : Opti
   match bs with
   | [] => some (none, [])
   | b :: r =>
+    -- DEVIATION (C14-no-text-form): a `$`/`@` that is not first is consumed and ends the expression
     if b = 36 then (if first then some (some .root, r) else some (none, r))
     else if b = 64 then (if first then some (some .at, r) else some (none, r))
     else if b = 46 then (afterDot r).map fun p => (some p.1, p.2)
@@ -282,7 +288,9 @@ def eqnSize : Eqn → Nat
   | .un _ l => 1 + eqnSize l
   | .bin _ l r => 1 + eqnSize l + eqnSize r
 
-/-- `precedentCorrect` -/
+/-- `precedentCorrect`. DEVIATION (C14-func-arg): a node with a right operand is taken for an infix
+operator whatever it is; `match`/`search` (precedence number 0) lose any operator at the top of their
+second argument to the rotation. -/
 def precCorrect : Nat → Eqn → Option Eqn
   | 0, _ => none
   | _+1, .val v => some (.val v)
@@ -439,7 +447,8 @@ def matchPrefix : Bytes → Bytes → Option Bytes
   | _ :: _, [] => none
   | t :: ts, b :: r => if b = t then matchPrefix ts r else none
 
-/-- `p.readEqList()`'s loop; `rec` reads one equation -/
+/-- `p.readEqList()`'s loop; `rec` reads one equation. DEVIATION (C14-empty-list): it starts with
+`readEq`, which fails on `]` -/
 def readListLoop (rec : P Eqn) : Nat → Bytes → Option (List Val × Bytes)
   | 0, _ => none
   | _, [] => some ([], [])
@@ -495,6 +504,7 @@ def readEqValue (rec : P Eqn) (bs : Bytes) : Option (Eqn × Bytes) :=
   | [] => none                                -- b = 0: `''` is not a value or function
   | b :: r =>
     if b = 33 then
+      -- DEVIATION (C14-not-scope): the operand is a whole equation (`readEq`), not one value
       match rec r with
       | none => none
       | some (e, r2) => some (.un Gen.JpOps.op_not e, r2)
